@@ -114,8 +114,10 @@ def gen_plan(rng, tier, idx, opts):
             ops.append({"op": "set_precoders", "how": rng.choice(["F", "full_F", "both"]), "seed": s(), "P": rng.choice([None, None, "gen"]) and gen_P(rng, K)})
         elif r < 0.55:
             ops.append({"op": "set_receive_filters", "how": rng.choice(["W", "W_H"]), "seed": s()})
-        elif r < 0.75:
+        elif r < 0.72:
             ops.append({"op": "set_P", "P": gen_P(rng, K)})
+        elif r < 0.75:
+            ops.append({"op": "scribble_P", "factor": rng.choice([0.25, 0.5, 2.0])})
         elif r < 0.78:
             ops.append({"op": "clear"})
             first = True
@@ -289,6 +291,7 @@ def execute(plan):
                     try:
                         ns_arg = int(Ns[0]) if (len(set(Ns)) == 1 and step % 3 == 0) else np.array(Ns)      # Ns as an int when all equal
                         p_arg = list(op["P"]) if (isinstance(op["P"], list) and step % 2 == 0) else P             # P as a plain list
+                        m["handed_P"] = p_arg if isinstance(p_arg, np.ndarray) else None
                         solver.solve(ns_arg, p_arg)
                     finally:
                         if mon:
@@ -315,7 +318,9 @@ def execute(plan):
                     if costs:
                         bump(res["probes"], "iterations_monitored", len(costs))
                 elif o == "randomizeF":
-                    solver.randomizeF(np.array(cur["Ns"]), py_P(op["P"]))
+                    pp = py_P(op["P"])
+                    m["handed_P"] = pp if isinstance(pp, np.ndarray) else None
+                    solver.randomizeF(np.array(cur["Ns"]), pp)
                     set_model_P(op["P"])
                     m["F_def"] = True
                     m["aligned"] = False
@@ -356,13 +361,36 @@ def execute(plan):
                     m["aligned"] = False
                     m["last_setter"] = "set_receive_filters"
                     m["cost_ok"] = False
+                elif o == "scribble_P":
+                    h = m.get("handed_P")
+                    if h is None:
+                        continue
+                    h *= op["factor"]          # e.g. a power sweep that reuses its buffer; nothing is called on the solver
+                    bump(res["probes"], "caller_edited_the_power_array_it_had_passed")
+                    # either the solver kept its own copy (nothing changes) or it follows the caller's buffer coherently
+                    check_relations(step, "the caller edited the P array it had passed")
+                    if res["status"] != "ok":
+                        firstv = res["violations"].pop()
+                        res["status"] = "ok"
+                        keepP = m["P"]
+                        m["P"] = np.array(h, dtype=float)
+                        check_relations(step, "the caller edited the P array it had passed")
+                        if res["status"] != "ok":
+                            res["violations"][-1]["detail"] = ("after the caller edited in place the power array it had passed, the solver is neither unchanged nor "
+                                                               "coherently updated (%s | %s)" % (firstv["detail"][:140], res["violations"][-1]["detail"][:140]))
+                            res["violations"][-1]["signature"]["rel"] = "aliasing"
+                            m["P"] = keepP
+                    log.add(o, op["factor"])
+                    continue
                 elif o == "set_P":
                     oldP = np.array(m["P"])
                     c0 = None
                     if (kind in ("altmin", "minleak") and m["F_def"] and m["W_def"] and m.get("cost_ok") and len(set(oldP)) == 1
                             and not cur["noise"]):       # with noise the reported cost also contains the (power independent) noise term
                         c0 = float(np.real(solver.get_cost()))
-                    solver.P = py_P(op["P"])
+                    pp = py_P(op["P"])
+                    m["handed_P"] = pp if isinstance(pp, np.ndarray) else None
+                    solver.P = pp
                     set_model_P(op["P"])
                     if c0 is not None and len(set(m["P"])) == 1 and c0 > 1e-12:
                         # the leaked interference power is linear in a common transmit power
